@@ -1,0 +1,57 @@
+//go:build verif
+
+// Package verifhook holds the instrumentation points of the external verification harness
+// (/verif). With the build tag "verif" off (the default) every function here is an empty,
+// inlineable stub; with the tag on, the harness may install functions. No hook changes behaviour
+// while nothing is installed.
+package verifhook
+
+import (
+	"crypto/elliptic"
+	"sync"
+)
+
+var (
+	mu         sync.RWMutex
+	randomFn   func(n int) []byte
+	ecScalarFn func(curve elliptic.Curve) []byte
+	eventFn    func(name string)
+)
+
+// SetRandom installs the source consulted by cryptoutils.RandomBytes (nil result = fall through).
+func SetRandom(f func(n int) []byte) { mu.Lock(); randomFn = f; mu.Unlock() }
+
+// SetEcScalar installs the source of ephemeral EC private scalars (nil result = fall through).
+func SetEcScalar(f func(curve elliptic.Curve) []byte) { mu.Lock(); ecScalarFn = f; mu.Unlock() }
+
+// SetEvent installs the event sink.
+func SetEvent(f func(name string)) { mu.Lock(); eventFn = f; mu.Unlock() }
+
+func Random(n int) []byte {
+	mu.RLock()
+	f := randomFn
+	mu.RUnlock()
+	if f == nil {
+		return nil
+	}
+	return f(n)
+}
+
+func EcScalar(curve elliptic.Curve) []byte {
+	mu.RLock()
+	f := ecScalarFn
+	mu.RUnlock()
+	if f == nil {
+		return nil
+	}
+	return f(curve)
+}
+
+func Event(name string) {
+	mu.RLock()
+	f := eventFn
+	mu.RUnlock()
+	if f != nil {
+		f(name)
+	}
+}
